@@ -492,6 +492,8 @@ def rms(fs, duration, target):
             d = data[..., :n_samples]
             d.shape = shape
             result = np.mean(d ** 2, axis=-1) ** 0.5
+            if isinstance(result, PipelineData):
+                result.channel = data.channel
 
             target(result)
             d = data[..., n_samples:]
